@@ -562,9 +562,245 @@ def rule_case_source(ctx):
         ctx.violation("pattern::Atom::new_inner|smart-case|1", site(fn, 0), "smart case does not test for upper-case characters in both halves")
 
 
+def rule_escape_siblings(ctx):
+    """`\\ ` becomes a space and every other backslash is kept — identically in the ASCII half and the non-ASCII
+    half of Atom::new_inner.  The ASCII half must be the library replace of "\\ " by " " (split/join or
+    str::replace).  The non-ASCII half is a hand-written loop: its body is turned into a finite transducer over
+    the character classes {space, backslash, other} x the loop-carried flags (flow-sensitive paths of one iteration,
+    plus the code after the loop), and that transducer is compared with the replace semantics on every class
+    string up to length 6 (more than enough for a transducer with this few states)."""
+    import itertools
+    from cfg import decision_paths
+    facts = ctx.facts
+    fn = get_fn(facts, M, "pattern::Atom::new_inner")
+    # ---- ASCII half
+    lits = []
+    for bi, t in fn.calls(lambda t: any(callee(t).endswith(x) for x in ("str>::split_once", "str>::split", "str>::replace"))):
+        pat_ = fn.expr_of_operand(t["args"][1])
+        lits.append((callee(t).rsplit("::", 1)[-1], pat_[1] if pat_[0] == "constx" else show(pat_), bi, t))
+    kinds = sorted(set(k for k, _, _, _ in lits))
+    ok_ascii = False
+    if kinds == ["replace"]:
+        k, pat_, bi, t = lits[0]
+        to = fn.expr_of_operand(t["args"][2])
+        ok_ascii = pat_ == '"\\\\ "' and to[0] == "constx" and to[1] == '" "'
+    elif kinds == ["split", "split_once"]:
+        ok_ascii = all(pat_ == '"\\\\ "' for _, pat_, _, _ in lits)
+        sp_push = [bi for bi, t in fn.calls(lambda t: callee(t).endswith("String::push")) if fn.const_of_operand(t["args"][1]) == 32]
+        ok_ascii = ok_ascii and bool(sp_push)
+    if ok_ascii:
+        ctx.ok(site(fn, lits[0][2]), "ASCII half: every `\\ ` replaced by a space (%s), nothing else touched" % "/".join(kinds))
+    else:
+        ctx.violation("pattern::Atom::new_inner|escape-ascii|1", site(fn, lits[0][2] if lits else 0),
+                      "the ASCII half does not unescape by replacing exactly \"\\\\ \" with \" \": %s" % [(k, p_) for k, p_, _, _ in lits])
+    # ---- non-ASCII half: the loop that pushes literal spaces / backslashes into the char vector
+    loops = fn.loops()
+    target = None
+    for h, body, srcs in loops:
+        pushes = [bi for bi, t in fn.calls(lambda t: callee(t).endswith("Vec::<T, A>::push")) if bi in body and fn.const_of_operand(t["args"][1]) in (32, 92)]
+        if pushes:
+            target = (h, body, srcs)
+    if target is None:
+        ctx.violation("pattern::Atom::new_inner|escape-unicode|0", site(fn, 0), "the non-ASCII half has no escape handling at all (no literal space/backslash is ever pushed)")
+        return
+    h, body, srcs = target
+    exits = sorted(set(b for a, b in fn.loop_exits(target)))
+    iters = decision_paths(fn, start=h, stops=set([h]) | set(exits), free_locals=True, limit=20000)
+    nxt_ids = set()
+    for conds, res, env in iters:
+        for d, chosen, allv in conds:
+            if d[0] == "discr" and d[1][0] == "call" and str(d[1][1]).endswith("::next"):
+                nxt_ids.add(d[1][4])
+    if len(nxt_ids) != 1:
+        raise Inconclusive("escape loop is not driven by a single iterator next()")
+    nxt = list(nxt_ids)[0]
+
+    def is_char(e):
+        return any(x[0] == "call" and len(x) > 4 and x[4] == nxt for x in walk(e))
+
+    # loop-carried boolean flags: free locals that the body branches on and assigns
+    def class_expr(e):
+        """value determined by the character class alone: constant, `c == K`, or a negation of those"""
+        e = strip_casts(e)
+        if e[0] == "const":
+            return True
+        if e[0] == "un" and e[1] == "Not":
+            return class_expr(e[2])
+        if e[0] == "bin" and e[1] in ("Eq", "Ne"):
+            return any(is_char(x) and strip_casts(y)[0] == "const" for x, y in ((e[2], e[3]), (e[3], e[2])))
+        return False
+
+    flags = set()
+    for conds, res, env in iters:
+        for d, chosen, allv in conds:
+            for x in walk(d):
+                if x[0] == "free" and fn.b["locals"][x[1]]["ty"] == "bool":
+                    assigned = [e_[x[1]] for _, _, e_ in iters if x[1] in e_]
+                    if assigned and all(class_expr(a_) for a_ in assigned):
+                        flags.add(x[1])
+
+    class _U(Exception):
+        pass
+
+    def val(e, cls, st):
+        """bool/int value of a condition under (class of the current char, flag state); None = depends on something else"""
+        e = strip_casts(e)
+        if e[0] == "const" and isinstance(e[1], (int, bool)):
+            return int(e[1])
+        if e[0] == "free":
+            return st.get(e[1]) if e[1] in flags else None
+        if e[0] == "un" and e[1] == "Not":
+            v = val(e[2], cls, st)
+            return None if v is None else int(not v)
+        if e[0] == "bin" and e[1] in ("Eq", "Ne"):
+            for x, y in ((e[2], e[3]), (e[3], e[2])):
+                y = strip_casts(y)
+                if is_char(x) and y[0] == "const" and isinstance(y[1], int):
+                    code = {"sp": 32, "bs": 92}.get(cls, -1)
+                    return int((code == y[1]) == (e[1] == "Eq"))
+            return None
+        if e[0] == "bin" and e[1] in ("BitAnd", "BitOr"):
+            a, b = val(e[2], cls, st), val(e[3], cls, st)
+            if e[1] == "BitAnd":
+                if a == 0 or b == 0:
+                    return 0
+                return None if a is None or b is None else 1
+            if a == 1 or b == 1:
+                return 1
+            return None if a is None or b is None else 0
+        if e[0] == "discr" and e[1][0] == "call" and len(e[1]) > 4 and e[1][4] == nxt:
+            return None if cls is None else (1 if cls != "END" else 0)
+        return None
+
+    vec_locals = set()
+    for bi, t in fn.calls(lambda t: callee(t).endswith("Vec::<T, A>::push")):
+        if bi in body and fn.const_of_operand(t["args"][1]) in (32, 92):
+            r = peel(fn.expr_of_operand(t["args"][0]))
+            while r[0] in ("ref", "deref"):
+                r = peel(r[1])
+            vec_locals.add(r[1:2])
+
+    def emits(env, cls):
+        out = []
+        for name, cid, cargs in env.get("#calls", ()):
+            if not str(name).endswith("Vec::<T, A>::push"):
+                continue
+            v = strip_casts(cargs[1])
+            if v[0] == "const" and v[1] == 32:
+                out.append("sp")
+            elif v[0] == "const" and v[1] == 92:
+                out.append("bs")
+            elif v[0] == "const" and v[1] == 36:
+                continue   # the `$` appended for an escaped trailing dollar: not part of the escape transducer
+            elif is_char(v):
+                out.append(cls)
+            else:
+                raise _U("pushes %s" % show(v)[:60])
+        return out
+
+    def step(paths, cls, st):
+        """all (emitted classes, new flag state, where the path ended) compatible with (cls, st)"""
+        res_ = set()
+        for conds, res, env in paths:
+            feas = True
+            for d, chosen, allv in conds:
+                v = val(d, cls, st)
+                if v is None:
+                    continue
+                if (chosen is not None and v != chosen) or (chosen is None and v in allv):
+                    feas = False
+                    break
+            if not feas:
+                continue
+            nst = dict(st)
+            for l in flags:
+                if l in env:
+                    nv = val(env[l], cls, st)
+                    if nv is None:
+                        raise _U("flag _%d is assigned a value that does not depend on the character class alone" % l)
+                    nst[l] = nv
+            res_.add((tuple(emits(env, cls)), tuple(sorted(nst.items())), res[1] if res[0] == "stop" else "return"))
+        return res_
+
+    init = {}
+    for l in flags:
+        ds = [e_ for b_, s_, e_ in fn.def_exprs(l) if b_ not in body]
+        if len(ds) == 1 and ds[0][0] == "const":
+            init[l] = int(ds[0][1])
+        else:
+            raise Inconclusive("initial value of the escape flag _%d is not a constant" % l)
+    tails = {}
+    for b in exits:
+        tails[b] = decision_paths(fn, start=b, stops=(), free_locals=True, with_env=True, limit=20000)
+
+    def reference(cs):
+        out, i = [], 0
+        while i < len(cs):
+            if cs[i] == "bs" and i + 1 < len(cs) and cs[i + 1] == "sp":
+                out.append("sp")
+                i += 2
+            else:
+                out.append(cs[i])
+                i += 1
+        return out
+
+    n = 0
+    bad = None
+    try:
+        for L in range(0, 7):
+            for cs in itertools.product(("sp", "bs", "x"), repeat=L):
+                st = dict(init)
+                out = []
+                okrun = True
+                for cls in cs:
+                    rs = set((e_, s_) for e_, s_, where in step(iters, cls, st) if where == h)
+                    if len(rs) != 1:
+                        raise _U("%d different behaviours for class %s in state %s (depends on case/normalization settings?)" % (len(rs), cls, st))
+                    e_, s_ = list(rs)[0]
+                    out += list(e_)
+                    st = dict(s_)
+                # end of input: leave the loop, then whatever the code after the loop pushes
+                rs = step(iters, "END", st)
+                ex = set(where for e_, s_, where in rs if where != h)
+                if len(rs) != 1 or len(ex) != 1:
+                    raise _U("loop exit is not unique")
+                e_, s_, where = list(rs)[0]
+                out += list(e_)
+                fl = set()
+                for conds, res, env in tails[where]:
+                    feas = True
+                    for d, chosen, allv in conds:
+                        v = val(d, None, dict(s_))
+                        if v is None:
+                            continue
+                        if (chosen is not None and v != chosen) or (chosen is None and v in allv):
+                            feas = False
+                            break
+                    if feas:
+                        fl.add(tuple(emits(env, None)))
+                if len(fl) != 1:
+                    raise _U("code after the escape loop pushes different things depending on something other than the flags")
+                out += list(list(fl)[0])
+                n += 1
+                if out != reference(list(cs)) and bad is None:
+                    bad = (cs, out, reference(list(cs)))
+    except _U as ex:
+        raise Inconclusive("escape loop of the non-ASCII half is not a finite transducer over {space, backslash, other}: %s" % ex)
+    sym = {"sp": "␠", "bs": "\\", "x": "x"}
+    if bad is None:
+        ctx.ok(site(fn, h), "non-ASCII half: loop = the same transducer as the ASCII replace on all %d class strings up to length 6 (%d flag(s), %d iteration paths)" % (n, len(flags), len(iters)))
+    else:
+        cs, out, want = bad
+        ctx.violation("pattern::Atom::new_inner|escape-unicode|1", site(fn, h),
+                      "the non-ASCII half unescapes differently from the ASCII half: for the character sequence `%s` it stores `%s`, the ASCII half (and the documented grammar) gives `%s` — "
+                      "an escaped space keeps its backslash / other backslashes are doubled whenever the atom contains a non-ASCII character"
+                      % ("".join(sym[c] for c in cs), "".join(sym[c] for c in out), "".join(sym[c] for c in want)))
+
+
 def rules(ctx):
     ctx.run_rule("C14.parse-twins", rule_parse_twins)
     ctx.run_rule("C14.new-is-literal", rule_new_is_literal)
     ctx.run_rule("C14.marker-table", rule_marker_table)
     ctx.run_rule("C14.split-table", rule_split_table)
     ctx.run_rule("C14.case-source", rule_case_source)
+    ctx.run_rule("C14.escape-siblings", rule_escape_siblings)
